@@ -106,8 +106,8 @@ def random_case(ctx, idx, rng):
         q0 = rng.integers(0, 3, size=m); q1 = rng.integers(5, 8, size=n)
     else:
         q0 = gen.qvec(rng, m, lay, r); q1 = gen.qvec(rng, n, lay, r)
-    kind = str(rng.choice(['complex', 'real', 'deficient', 'zero', 'zerocols', 'binary', 'dupcols', 'nearstruct'], p=[.2, .15, .13, .04, .12, .12, .12, .12]))
-    if kind in ('zerocols', 'binary', 'dupcols', 'nearstruct'):
+    kind = str(rng.choice(['complex', 'real', 'deficient', 'zero', 'zerocols', 'binary', 'dupcols', 'nearstruct', 'complex-orthogonal'], p=[.2, .15, .11, .04, .11, .11, .11, .11, .06]))
+    if kind in ('zerocols', 'binary', 'dupcols', 'nearstruct', 'complex-orthogonal'):
         A = gen.structured_block_matrix(rng, q0, q1, kind)
     elif kind == 'deficient':
         A = gen.block_matrix(rng, q0, q1, 'complex', rank=int(rng.integers(1, 3)))
